@@ -216,7 +216,7 @@ func (f *aggrMinFunc) Update(kv KVPair, args []Expression, ctx *ExecuteCtx) erro
 		f.isFloat = isFloat
 		return nil
 	}
-	if f.isFloat {
+	if f.isFloat || isFloat {
 		if f.fmin > fval {
 			f.imin = ival
 			f.fmin = fval
@@ -276,7 +276,7 @@ func (f *aggrMaxFunc) Update(kv KVPair, args []Expression, ctx *ExecuteCtx) erro
 		f.isFloat = isFloat
 		return nil
 	}
-	if f.isFloat {
+	if f.isFloat || isFloat {
 		if f.fmax < fval {
 			f.imax = ival
 			f.fmax = fval
